@@ -8,7 +8,7 @@
    plain binding refers to older cells only; the cells of a recursive group ([let rec], or the
    fields of a record literal) refer to each other and unfold to the members of a [BRec]. *)
 From Coq Require Import List String ZArith Bool Lia Arith.
-From NV Require Import Lazy.Syntax Lazy.Spec Lazy.SpecFacts Lazy.RelFacts Lazy.FieldPath Lazy.Need.
+From NV Require Import Lazy.Syntax Lazy.Spec Lazy.SpecFacts Lazy.RelFacts Lazy.FieldPath Lazy.Demand Lazy.Need.
 Import ListNotations.
 Open Scope string_scope.
 Open Scope list_scope.
@@ -464,84 +464,171 @@ Qed.
 
 (* ------------------------------------------------------------------ the refinement *)
 
+Notation diverges := (diverges fl).
+Notation Dem := (Dem fl).
+Notation SDem := (SDem fl).
+
+(* cells that are black-holed in [h'] were already black-holed in [h] *)
+Definition bh_sub (h h' : heap) : Prop :=
+  forall l c', nth_error h' l = Some c' -> c_state c' = Blackholed ->
+    exists c, nth_error h l = Some c /\ c_state c = Blackholed.
+
+(* every black-holed cell is one of the pending evaluations [P] *)
+Definition BH (h : heap) (P : list binding) : Prop :=
+  forall l c, nth_error h l = Some c -> c_state c = Blackholed -> exists b, U h l b /\ In b P.
+
+Definition err_ok (b : binding) (e : err) : Prop :=
+  (e = InfiniteRec /\ diverges b) \/ (e <> InfiniteRec /\ exists m, force fl m b = Err e).
+
 Definition res_ok (h h' : heap) (b : binding) (r : outcome nval) : Prop :=
   hext h h' /\
   match r with
-  | Ok nv => Inv h' /\ exists m v, force fl m b = Ok v /\ VU h' nv v
-  | Err c => exists m, force fl m b = Err c
+  | Ok nv => Inv h' /\ bh_sub h h' /\ exists m v, force fl m b = Ok v /\ VU h' nv v
+  | Err e => err_ok b e
   | OutOfFuel => False
   end.
 
-Lemma res_ok_shift : forall h h' b b' r,
-  (forall m o, force fl m b = o -> o <> OutOfFuel -> exists m', force fl m' b' = o) ->
-  res_ok h h' b r -> res_ok h h' b' r.
+Lemma bh_sub_refl : forall h, bh_sub h h.
+Proof. intros h l c Hc Hs. eauto. Qed.
+
+Lemma bh_sub_trans : forall h1 h2 h3, bh_sub h1 h2 -> bh_sub h2 h3 -> bh_sub h1 h3.
 Proof.
-  intros h h' b b' r Hs [Hx Hr]. split; [assumption|]. destruct r as [nv|c|]; [| |assumption].
-  - destruct Hr as [Hi [m [v [E V]]]]. split; [assumption|].
-    destruct (Hs m _ E ltac:(discriminate)) as [m' E']. eauto.
-  - destruct Hr as [m E]. destruct (Hs m _ E ltac:(discriminate)) as [m' E']. eauto.
+  intros h1 h2 h3 H1 H2 l c Hc Hs. destruct (H2 l c Hc Hs) as [c2 [Hc2 Hs2]]. eauto.
 Qed.
 
-Lemma res_ok_hext : forall h0 h h' b r, hext h0 h -> res_ok h h' b r -> res_ok h0 h' b r.
-Proof. intros h0 h h' b r Hx [Hx' Hr]. split; [eapply hext_trans; eauto|assumption]. Qed.
+Lemma bh_sub_app : forall h cs, (forall c, In c cs -> c_state c = Suspended) -> bh_sub h (h ++ cs).
+Proof.
+  intros h cs Hcs l c Hc Hs. destruct (lt_dec l (List.length h)) as [Hl|Hl].
+  - rewrite nth_error_app1 in Hc by assumption. eauto.
+  - rewrite nth_error_app2 in Hc by lia. apply nth_error_In in Hc. rewrite (Hcs c Hc) in Hs. discriminate.
+Qed.
+
+Lemma BH_sub : forall h h' P, BH h P -> hext h h' -> bh_sub h h' -> BH h' P.
+Proof.
+  intros h h' P Hb Hx Hs l c' Hc' Hst. destruct (Hs l c' Hc' Hst) as [c [Hc Hsc]].
+  destruct (Hb l c Hc Hsc) as [b [Hu Hin]]. exists b. split; [eapply U_mono; eauto|assumption].
+Qed.
+
+Lemma err_ok_shift : forall b b' e,
+  Dem b' b -> (forall m, force fl m b = Err e -> exists m', force fl m' b' = Err e) ->
+  err_ok b e -> err_ok b' e.
+Proof.
+  intros b b' e Hd Hs [[-> Hdiv]|[Hne [m Hm]]].
+  - left. split; [reflexivity|]. eapply Dem_diverges; eauto.
+  - right. split; [assumption|]. destruct (Hs m Hm) as [m' Hm']. eauto.
+Qed.
+
+Lemma res_ok_shift : forall h h' b b' r,
+  (forall m o, force fl m b = o -> o <> OutOfFuel -> exists m', force fl m' b' = o) ->
+  Dem b' b -> res_ok h h' b r -> res_ok h h' b' r.
+Proof.
+  intros h h' b b' r Hs Hd [Hx Hr]. split; [assumption|]. destruct r as [nv|c|]; [| |assumption].
+  - destruct Hr as [Hi [Hb [m [v [E V]]]]]. split; [assumption|]. split; [assumption|].
+    destruct (Hs m _ E ltac:(discriminate)) as [m' E']. eauto.
+  - eapply err_ok_shift; eauto. intros m Hm. exact (Hs m _ Hm ltac:(discriminate)).
+Qed.
+
+Lemma res_err_shift : forall h h' b b' e,
+  Dem b' b -> (forall m, force fl m b = Err e -> exists m', force fl m' b' = Err e) ->
+  res_ok h h' b (Err e) -> res_ok h h' b' (Err e).
+Proof. intros h h' b b' e Hd Hs [Hx Hr]. split; [assumption|]. eapply err_ok_shift; eauto. Qed.
+
+Lemma res_ok_hext : forall h0 h h' b r,
+  hext h0 h -> bh_sub h0 h -> res_ok h h' b r -> res_ok h0 h' b r.
+Proof.
+  intros h0 h h' b r Hx Hb [Hx' Hr]. split; [eapply hext_trans; eauto|].
+  destruct r as [nv|c|]; auto. destruct Hr as [Hi [Hb' R]]. split; [assumption|].
+  split; [eapply bh_sub_trans; eauto|assumption].
+Qed.
 
 Definition refines_at (n : nat) : Prop :=
-  forall h nrho t r h' rho,
-    evalN fl Good n h nrho t = (r, h') -> r <> OutOfFuel -> r <> Err InfiniteRec ->
+  forall h nrho t r h' rho P,
+    evalN fl Good n h nrho t = (r, h') -> r <> OutOfFuel ->
     wft t = true -> Inv h -> UE h nrho rho -> hext (init_heap fl) h ->
+    BH h P -> (forall p, In p P -> Dem p (BClos t rho)) ->
     res_ok h h' (BClos t rho) r.
 
-Lemma force_clos : forall m t rho, force fl m (BClos t rho) = eval fl m rho t.
-Proof. reflexivity. Qed.
-
 Lemma enter_ref : forall n, refines_at n ->
-  forall h l r h' b,
-    enter_with Good (evalN fl Good n) h l = (r, h') -> r <> OutOfFuel -> r <> Err InfiniteRec ->
+  forall h l r h' b P,
+    enter_with Good (evalN fl Good n) h l = (r, h') -> r <> OutOfFuel ->
     Inv h -> U h l b -> hext (init_heap fl) h ->
+    BH h P -> (forall p, In p P -> SDem p b) ->
     res_ok h h' b r.
 Proof.
-  intros n IH h l r h' b He Ho Hi Hinv Hu Hf. unfold enter_with in He.
+  intros n IH h l r h' b P He Ho Hinv Hu Hf Hbh Hdem. unfold enter_with in He.
   pose proof (U_bound _ _ _ Hu) as Hl.
   destruct (nth_error h l) as [c|] eqn:Hc; [|apply nth_error_None in Hc; lia].
   destruct (cell_open h l b c Hu Hc) as [rhoc [Hr Hforce]].
   destruct (proj1 Hinv l c Hc) as [Ha _].
+  assert (D1 : Dem b (BClos (c_tm c) rhoc)).
+  { intros m Hm. exists m. split; [lia|]. rewrite force_clos, <- Hforce. exact Hm. }
+  assert (D2 : Dem (BClos (c_tm c) rhoc) b).
+  { intros m Hm. exists m. split; [lia|]. rewrite Hforce. exact Hm. }
   assert (SH : forall h0 h1 r0, res_ok h0 h1 (BClos (c_tm c) rhoc) r0 -> res_ok h0 h1 b r0).
-  { intros h0 h1 r0. apply res_ok_shift. intros m o Hm _. exists m. rewrite Hforce. exact Hm. }
+  { intros h0 h1 r0. apply res_ok_shift; [|exact D1]. intros m o Hm _. exists m. rewrite Hforce. exact Hm. }
+  assert (Hdem' : forall p, In p P -> Dem p (BClos (c_tm c) rhoc)).
+  { intros p Hp. eapply Dem_trans; [apply SDem_Dem; now apply Hdem|exact D1]. }
+  assert (Hll : l < List.length h) by exact Hl.
   destruct (c_state c) eqn:Hs.
   - (* Suspended *)
     destruct (is_whnf (c_tm c)).
     + destruct (evalN fl Good n h (c_env c) (c_tm c)) as [[nv|e|] h1] eqn:E.
       * injection He as <- <-.
-        destruct (SH _ _ _ (IH _ _ _ _ _ _ E ltac:(discriminate) ltac:(discriminate) Ha Hinv Hr Hf))
-          as [Hx [Hinv1 [m [v [Ev Vv]]]]].
+        destruct (SH _ _ _ (IH _ _ _ _ _ _ P E ltac:(discriminate) Ha Hinv Hr Hf Hbh Hdem'))
+          as [Hx [Hinv1 [Hb1 [m [v [Ev Vv]]]]]].
         destruct (Hx l c Hc) as [c1 [Hc1 _]].
         destruct (Inv_update h1 l c1 _ nv m v Hinv1 Hc1 (U_mono _ _ _ _ Hx Hu) Ev Vv) as [Hinv2 Hso].
-        split; [eapply hext_trans; [exact Hx|apply Hso]|]. split; [assumption|].
-        exists m, v. split; [assumption|]. now apply (VU_same _ _ _ _ Hso).
+        split; [eapply hext_trans; [exact Hx|apply Hso]|]. split; [assumption|]. split.
+        -- intros j d Hd Hsd. unfold update in Hd. rewrite Hc1 in Hd.
+           assert (Hl1 : l < List.length h1) by (apply nth_error_Some; congruence).
+           destruct (Nat.eq_dec l j) as [->|Hne].
+           ++ rewrite nth_error_set_nth_eq in Hd by assumption. injection Hd as <-. discriminate.
+           ++ rewrite nth_error_set_nth_ne in Hd by assumption. exact (Hb1 j d Hd Hsd).
+        -- exists m, v. split; [assumption|]. now apply (VU_same _ _ _ _ Hso).
       * injection He as <- <-.
-        exact (SH _ _ _ (IH _ _ _ _ _ _ E ltac:(discriminate) Hi Ha Hinv Hr Hf)).
+        exact (SH _ _ _ (IH _ _ _ _ _ _ P E ltac:(discriminate) Ha Hinv Hr Hf Hbh Hdem')).
       * injection He as <- <-. congruence.
     + destruct (Inv_blackhole h l c Hinv Hc Hs) as [Hinv0 Hso0].
+      assert (Hbh0 : BH (set_state h l Blackholed) (b :: P)).
+      { intros j d Hd Hsd. unfold set_state in Hd. rewrite Hc in Hd.
+        destruct (Nat.eq_dec l j) as [->|Hne].
+        - exists b. split; [now apply (U_same _ _ _ _ Hso0)|now left].
+        - rewrite nth_error_set_nth_ne in Hd by assumption.
+          destruct (Hbh j d Hd Hsd) as [b' [Hu' Hin']]. exists b'.
+          split; [now apply (U_same _ _ _ _ Hso0)|now right]. }
+      assert (Hdem0 : forall p, In p (b :: P) -> Dem p (BClos (c_tm c) rhoc)).
+      { intros p [<-|Hp]; [exact D1|now apply Hdem']. }
       destruct (evalN fl Good n (set_state h l Blackholed) (c_env c) (c_tm c)) as [[nv|e|] h1] eqn:E.
       * injection He as <- <-. cbn [upd_target].
-        destruct (SH _ _ _ (IH _ _ _ _ _ _ E ltac:(discriminate) ltac:(discriminate) Ha Hinv0
-                    (UE_mono _ _ _ _ (proj1 Hso0) Hr) (hext_trans _ _ _ Hf (proj1 Hso0))))
-          as [Hx [Hinv1 [m [v [Ev Vv]]]]].
+        destruct (SH _ _ _ (IH _ _ _ _ _ _ (b :: P) E ltac:(discriminate) Ha Hinv0
+                    (UE_mono _ _ _ _ (proj1 Hso0) Hr) (hext_trans _ _ _ Hf (proj1 Hso0)) Hbh0 Hdem0))
+          as [Hx [Hinv1 [Hb1 [m [v [Ev Vv]]]]]].
         pose proof (hext_trans _ _ _ (proj1 Hso0) Hx) as Hx'.
         destruct (Hx' l c Hc) as [c1 [Hc1 _]].
         destruct (Inv_update h1 l c1 _ nv m v Hinv1 Hc1 (U_mono _ _ _ _ Hx' Hu) Ev Vv) as [Hinv2 Hso].
-        split; [eapply hext_trans; [exact Hx'|apply Hso]|]. split; [assumption|].
-        exists m, v. split; [assumption|]. now apply (VU_same _ _ _ _ Hso).
+        split; [eapply hext_trans; [exact Hx'|apply Hso]|]. split; [assumption|]. split.
+        -- intros j d Hd Hsd. unfold update in Hd. rewrite Hc1 in Hd.
+           assert (Hl1 : l < List.length h1) by (apply nth_error_Some; congruence).
+           destruct (Nat.eq_dec l j) as [->|Hne].
+           ++ rewrite nth_error_set_nth_eq in Hd by assumption. injection Hd as <-. discriminate.
+           ++ rewrite nth_error_set_nth_ne in Hd by assumption.
+              destruct (Hb1 j d Hd Hsd) as [d0 [Hd0 Hs0]]. unfold set_state in Hd0. rewrite Hc in Hd0.
+              rewrite nth_error_set_nth_ne in Hd0 by assumption. eauto.
+        -- exists m, v. split; [assumption|]. now apply (VU_same _ _ _ _ Hso).
       * injection He as <- <-.
-        eapply res_ok_hext; [apply Hso0|].
-        exact (SH _ _ _ (IH _ _ _ _ _ _ E ltac:(discriminate) Hi Ha Hinv0
-                 (UE_mono _ _ _ _ (proj1 Hso0) Hr) (hext_trans _ _ _ Hf (proj1 Hso0)))).
+        destruct (SH _ _ _ (IH _ _ _ _ _ _ (b :: P) E ltac:(discriminate) Ha Hinv0
+                 (UE_mono _ _ _ _ (proj1 Hso0) Hr) (hext_trans _ _ _ Hf (proj1 Hso0)) Hbh0 Hdem0)) as [Hx R].
+        split; [eapply hext_trans; [apply Hso0|exact Hx]|exact R].
       * injection He as <- <-. congruence.
-  - (* Blackholed *) injection He as <- <-. congruence.
+  - (* Blackholed: the evaluation of [b] needs [b] *)
+    injection He as <- <-. split; [apply hext_refl|]. left. split; [reflexivity|].
+    destruct (Hbh l c Hc Hs) as [b' [Hu' Hin']]. assert (b' = b) by (eapply U_det; eauto). subst b'.
+    apply SDem_self. now apply Hdem.
   - (* Evaluated *)
     destruct Hinv as [Hw Hiv].
     destruct (Hiv l c _ Hc Hs Hu) as [nv [m [v [E1 [E2 E3]]]]]. rewrite E1 in He.
-    injection He as <- <-. split; [apply hext_refl|]. split; [split; assumption|]. eauto.
+    injection He as <- <-. split; [apply hext_refl|]. split; [split; assumption|].
+    split; [apply bh_sub_refl|]. eauto.
 Qed.
 
 (* ---- spec-side bookkeeping *)
@@ -591,17 +678,18 @@ Qed.
 
 Lemma alloc_list_ref : forall es h nrho rho h1 ls,
   alloc_list h nrho es = (h1, ls) -> Inv h -> forallb wft es = true -> UE h nrho rho ->
-  hext h h1 /\ Inv h1 /\ Forall2 (U h1) ls (map (fun e => BClos e rho) es).
+  hext h h1 /\ Inv h1 /\ bh_sub h h1 /\ Forall2 (U h1) ls (map (fun e => BClos e rho) es).
 Proof.
   induction es as [|e es IH]; intros h nrho rho h1 ls Hal Hinv Hac Hr; cbn [alloc_list] in Hal.
-  - injection Hal as <- <-. split; [apply hext_refl|]. split; [assumption|constructor].
+  - injection Hal as <- <-. split; [apply hext_refl|]. split; [assumption|]. split; [apply bh_sub_refl|constructor].
   - cbn [forallb] in Hac. apply andb_prop in Hac. destruct Hac as [Ha1 Ha2].
     unfold alloc in Hal.
     destruct (alloc_ref h e nrho rho Hinv Ha1 Hr) as [Hx0 [Hinv0 Hu0]].
     destruct (alloc_list (h ++ [mkcell e nrho Standard Suspended None]) nrho es) as [h2 ls2] eqn:E.
     injection Hal as <- <-.
-    destruct (IH _ _ rho _ _ E Hinv0 Ha2 (UE_mono _ _ _ _ Hx0 Hr)) as [Hx1 [Hinv1 Hf]].
-    split; [eapply hext_trans; eauto|]. split; [assumption|].
+    destruct (IH _ _ rho _ _ E Hinv0 Ha2 (UE_mono _ _ _ _ Hx0 Hr)) as [Hx1 [Hinv1 [Hb1 Hf]]].
+    split; [eapply hext_trans; eauto|]. split; [assumption|]. split.
+    { eapply bh_sub_trans; [|exact Hb1]. apply bh_sub_app. intros c [<-|[]]. reflexivity. }
     cbn [map]. constructor; [eapply U_mono; eauto|assumption].
 Qed.
 
@@ -633,7 +721,7 @@ Lemma alloc_fields_ref : forall fs h nrho rho h1 ls,
   alloc_fields h nrho fs = (h1, ls) -> Inv h ->
   nodup_names (map fst fs) = true -> forallb (fun p => wft (snd p)) fs = true ->
   UE h nrho rho ->
-  hext h h1 /\ Inv h1 /\
+  hext h h1 /\ Inv h1 /\ bh_sub h h1 /\
   Forall2 (fun p q => fst p = fst q /\ U h1 (snd p) (snd q)) ls (map (field_binding fs rho) fs).
 Proof.
   intros fs h nrho rho h1 ls Hal Hinv Hn Hw Hr. unfold alloc_fields in Hal. injection Hal as <- <-.
@@ -658,7 +746,10 @@ Proof.
     split; [unfold mk; destruct (has_deps (map fst fs) (snd p)); reflexivity|].
     split; [unfold mk; destruct (has_deps (map fst fs) (snd p)); exact Hwp|].
     eexists. apply (group_member_U h1 base false fs nrho rho j p); eauto.
-  - unfold field_binding. apply (group_members h1 base false fs nrho rho); auto.
+  - split.
+    + apply bh_sub_app. intros c Hc. apply in_map_iff in Hc. destruct Hc as [p [<- _]].
+      unfold mk. destruct (has_deps (map fst fs) (snd p)); reflexivity.
+    + unfold field_binding. apply (group_members h1 base false fs nrho rho); auto.
 Qed.
 
 Lemma index_of_spec : forall f (l : files) i,
@@ -685,9 +776,21 @@ Proof.
   exact (fl_wf (f, e) H).
 Qed.
 
+Lemma nbinop_err : forall o a b c, nbinop_sem o a b = Err c -> c = TypeErr.
+Proof. intros o a b c H. destruct o, a, b; cbn in H; congruence. Qed.
+
+Lemma nat_sem_err : forall vi va c, nat_sem vi va = Err c -> c = Blame.
+Proof.
+  intros vi va c H. destruct vi, va; cbn in H; try congruence.
+  destruct (Z.ltb n 0); [congruence|]. destruct (nth_error es (Z.to_nat n)); congruence.
+Qed.
+
+(* spec steps used when an error of a sub-evaluation is propagated *)
+Ltac err_step m1 Ev1 := exists (S m1); rewrite force_clos in *; cbn [eval]; rewrite Ev1; reflexivity.
+
 Theorem evalN_refines : forall n, refines_at n.
 Proof.
-  induction n as [|k IH]; intros h nrho t r h' rho He Ho Hi Hac Hinv Hr Hf.
+  induction n as [|k IH]; intros h nrho t r h' rho P He Ho Hac Hinv Hr Hf Hbh Hdem.
   - cbn in He. injection He as <- <-. congruence.
   - pose proof (enter_ref k IH) as ENT.
     destruct t; cbn [evalN wft] in He, Hac;
@@ -697,183 +800,232 @@ Proof.
     + (* Var *)
       destruct (lookup x nrho) as [l|] eqn:L.
       * destruct (UE_lookup _ _ _ _ _ Hr L) as [b [Lb Ub]].
-        eapply res_ok_shift; [|exact (ENT _ _ _ _ _ He Ho Hi Hinv Ub Hf)].
-        intros m o Hm _. exists (S m). rewrite force_clos. cbn [eval]. rewrite Lb. exact Hm.
-      * injection He as <- <-. split; [apply hext_refl|]. exists 1. rewrite force_clos. cbn.
-        now rewrite (UE_lookup_none _ _ _ _ Hr L).
+        pose proof (D_var fl rho x b Lb) as DV.
+        eapply res_ok_shift; [| |exact (ENT _ _ _ _ _ P He Ho Hinv Ub Hf Hbh
+                                          (fun p Hp => Dem_SDem fl _ _ _ (Hdem p Hp) DV))].
+        -- intros m o Hm _. exists (S m). rewrite force_clos. cbn [eval]. rewrite Lb. exact Hm.
+        -- now apply SDem_Dem.
+      * injection He as <- <-. split; [apply hext_refl|]. right. split; [discriminate|].
+        exists 1. rewrite force_clos. cbn. now rewrite (UE_lookup_none _ _ _ _ Hr L).
     + (* Lam *)
-      injection He as <- <-. split; [apply hext_refl|]. split; [assumption|].
+      injection He as <- <-. split; [apply hext_refl|]. split; [assumption|]. split; [apply bh_sub_refl|].
       exists 1, (VClo x t rho). split; [reflexivity|]. now constructor.
     + (* App *)
       destruct (evalN fl Good k h nrho t1) as [[vf|e|] h1] eqn:E1.
-      * destruct (IH _ _ _ _ _ _ E1 ltac:(discriminate) ltac:(discriminate) H Hinv Hr Hf)
-          as [Hx1 [Hinv1 [m1 [v1 [Ev1 Vv1]]]]]. rewrite force_clos in Ev1.
+      * destruct (IH _ _ _ _ _ _ P E1 ltac:(discriminate) H Hinv Hr Hf Hbh
+                    (fun p Hp => Dem_trans fl _ _ _ (Hdem p Hp) (D_app1 fl rho t1 t2)))
+          as [Hx1 [Hinv1 [Hb1 [m1 [v1 [Ev1 Vv1]]]]]]. rewrite force_clos in Ev1.
         destruct Vv1 as [z|s|b0|x b0 nrho' rho' Hab Hr'|ls bs Hl|fs bs Hl];
-          try (injection He as <- <-; split; [assumption|]; exists (S m1); rewrite force_clos;
-               cbn [eval]; rewrite Ev1; reflexivity).
+          try (injection He as <- <-; split; [assumption|]; right; split; [discriminate|];
+               exists (S m1); rewrite force_clos; cbn [eval]; rewrite Ev1; reflexivity).
         unfold alloc in He.
         destruct (alloc_ref h1 t2 nrho rho Hinv1 H0 (UE_mono _ _ _ _ Hx1 Hr)) as [Hx2 [Hinv2 Hu2]].
-        assert (Hr2 : UE (h1 ++ [mkcell t2 nrho Standard Suspended None]) ((x, List.length h1) :: nrho')
-                        ((x, BClos t2 rho) :: rho')).
+        set (h2 := h1 ++ [mkcell t2 nrho Standard Suspended None]) in *.
+        assert (Hb2 : bh_sub h1 h2) by (apply bh_sub_app; intros c [<-|[]]; reflexivity).
+        assert (Hr2 : UE h2 ((x, List.length h1) :: nrho') ((x, BClos t2 rho) :: rho')).
         { constructor; [assumption|]. eapply UE_mono; eauto. }
-        pose proof (IH _ _ _ _ _ _ He Ho Hi Hab Hinv2 Hr2
-                      (hext_trans _ _ _ Hf (hext_trans _ _ _ Hx1 Hx2))) as R.
-        eapply res_ok_hext; [eapply hext_trans; [exact Hx1|exact Hx2]|].
-        eapply res_ok_shift; [|exact R].
+        pose proof (D_app2 fl rho t1 t2 m1 x b0 rho' Ev1) as DA.
+        pose proof (IH _ _ _ _ _ _ P He Ho Hab Hinv2 Hr2
+                      (hext_trans _ _ _ Hf (hext_trans _ _ _ Hx1 Hx2))
+                      (BH_sub _ _ _ (BH_sub _ _ _ Hbh Hx1 Hb1) Hx2 Hb2)
+                      (fun p Hp => Dem_trans fl _ _ _ (Hdem p Hp) DA)) as R.
+        eapply res_ok_hext; [eapply hext_trans; [exact Hx1|exact Hx2]|eapply bh_sub_trans; eauto|].
+        eapply res_ok_shift; [|exact DA|exact R].
         intros m o Hm Hne. rewrite force_clos in Hm. exists (S (Nat.max m1 m)). rewrite force_clos.
         cbn [eval]. spec_step (Nat.max m1 m). eapply eval_mono; eauto. lia.
       * injection He as <- <-.
-        destruct (IH _ _ _ _ _ _ E1 ltac:(discriminate) Hi H Hinv Hr Hf) as [Hx1 [m1 Ev1]].
-        split; [assumption|]. exists (S m1). rewrite force_clos in *. cbn [eval]. now rewrite Ev1.
+        eapply res_err_shift; [apply D_app1| |exact (IH _ _ _ _ _ _ P E1 ltac:(discriminate) H Hinv Hr Hf Hbh
+                    (fun p Hp => Dem_trans fl _ _ _ (Hdem p Hp) (D_app1 fl rho t1 t2)))].
+        intros m1 Ev1. err_step m1 Ev1.
       * injection He as <- <-. congruence.
     + (* Let *)
       unfold alloc in He.
       destruct (alloc_ref h t1 nrho rho Hinv H Hr) as [Hx2 [Hinv2 Hu2]].
-      assert (Hr2 : UE (h ++ [mkcell t1 nrho Standard Suspended None]) ((x, List.length h) :: nrho)
-                      ((x, BClos t1 rho) :: rho)).
+      set (h2 := h ++ [mkcell t1 nrho Standard Suspended None]) in *.
+      assert (Hb2 : bh_sub h h2) by (apply bh_sub_app; intros c [<-|[]]; reflexivity).
+      assert (Hr2 : UE h2 ((x, List.length h) :: nrho) ((x, BClos t1 rho) :: rho)).
       { constructor; [assumption|]. eapply UE_mono; eauto. }
-      pose proof (IH _ _ _ _ _ _ He Ho Hi H0 Hinv2 Hr2 (hext_trans _ _ _ Hf Hx2)) as R.
-      eapply res_ok_hext; [exact Hx2|]. eapply res_ok_shift; [|exact R].
+      pose proof (IH _ _ _ _ _ _ P He Ho H0 Hinv2 Hr2 (hext_trans _ _ _ Hf Hx2) (BH_sub _ _ _ Hbh Hx2 Hb2)
+                    (fun p Hp => Dem_trans fl _ _ _ (Hdem p Hp) (D_let fl rho x t1 t2))) as R.
+      eapply res_ok_hext; [exact Hx2|exact Hb2|]. eapply res_ok_shift; [|apply D_let|exact R].
       intros m o Hm Hne. exists (S m). exact Hm.
     + (* LetRec *)
       destruct (alloc_rec_ref h x t1 nrho rho Hinv H Hr) as [Hx2 [Hinv2 Hr2]].
-      pose proof (IH _ _ _ _ _ _ He Ho Hi H0 Hinv2 Hr2 (hext_trans _ _ _ Hf Hx2)) as R.
-      eapply res_ok_hext; [exact Hx2|]. eapply res_ok_shift; [|exact R].
+      set (h2 := h ++ [mkcell t1 ((x, List.length h) :: nrho) Standard Suspended None]) in *.
+      assert (Hb2 : bh_sub h h2) by (apply bh_sub_app; intros c [<-|[]]; reflexivity).
+      pose proof (IH _ _ _ _ _ _ P He Ho H0 Hinv2 Hr2 (hext_trans _ _ _ Hf Hx2) (BH_sub _ _ _ Hbh Hx2 Hb2)
+                    (fun p Hp => Dem_trans fl _ _ _ (Hdem p Hp) (D_letrec fl rho x t1 t2))) as R.
+      eapply res_ok_hext; [exact Hx2|exact Hb2|]. eapply res_ok_shift; [|apply D_letrec|exact R].
       intros m o Hm Hne. exists (S m). exact Hm.
-    + (* Num *) injection He as <- <-. split; [apply hext_refl|]. split; [assumption|].
+    + (* Num *) injection He as <- <-. split; [apply hext_refl|]. split; [assumption|]. split; [apply bh_sub_refl|].
       exists 1, (VNum n). split; [reflexivity|constructor].
-    + (* Str *) injection He as <- <-. split; [apply hext_refl|]. split; [assumption|].
+    + (* Str *) injection He as <- <-. split; [apply hext_refl|]. split; [assumption|]. split; [apply bh_sub_refl|].
       exists 1, (VStr s). split; [reflexivity|constructor].
-    + (* Bool *) injection He as <- <-. split; [apply hext_refl|]. split; [assumption|].
+    + (* Bool *) injection He as <- <-. split; [apply hext_refl|]. split; [assumption|]. split; [apply bh_sub_refl|].
       exists 1, (VBool b). split; [reflexivity|constructor].
     + (* Bin *)
       destruct (evalN fl Good k h nrho t1) as [[va|e|] h1] eqn:E1.
-      * destruct (IH _ _ _ _ _ _ E1 ltac:(discriminate) ltac:(discriminate) H Hinv Hr Hf)
-          as [Hx1 [Hinv1 [m1 [v1 [Ev1 Vv1]]]]]. rewrite force_clos in Ev1.
+      * destruct (IH _ _ _ _ _ _ P E1 ltac:(discriminate) H Hinv Hr Hf Hbh
+                    (fun p Hp => Dem_trans fl _ _ _ (Hdem p Hp) (D_bin1 fl rho o t1 t2)))
+          as [Hx1 [Hinv1 [Hb1 [m1 [v1 [Ev1 Vv1]]]]]]. rewrite force_clos in Ev1.
+        pose proof (D_bin2 fl rho o t1 t2 m1 v1 Ev1) as DB.
         destruct (evalN fl Good k h1 nrho t2) as [[vb|e|] h2] eqn:E2.
-        -- destruct (IH _ _ _ _ _ _ E2 ltac:(discriminate) ltac:(discriminate) H0 Hinv1
-                       (UE_mono _ _ _ _ Hx1 Hr) (hext_trans _ _ _ Hf Hx1))
-             as [Hx2 [Hinv2 [m2 [v2 [Ev2 Vv2]]]]]. rewrite force_clos in Ev2.
+        -- destruct (IH _ _ _ _ _ _ P E2 ltac:(discriminate) H0 Hinv1
+                       (UE_mono _ _ _ _ Hx1 Hr) (hext_trans _ _ _ Hf Hx1) (BH_sub _ _ _ Hbh Hx1 Hb1)
+                       (fun p Hp => Dem_trans fl _ _ _ (Hdem p Hp) DB))
+             as [Hx2 [Hinv2 [Hb2 [m2 [v2 [Ev2 Vv2]]]]]]. rewrite force_clos in Ev2.
            injection He as <- <-. split; [eapply hext_trans; eauto|].
            pose proof (VU_binop h2 o va vb v1 v2 (VU_mono _ _ _ _ Hx2 Vv1) Vv2) as Hb.
-           destruct (nbinop_sem o va vb) as [nv|c|]; [| |contradiction].
-           ++ destruct Hb as [v [Eb Vb]]. split; [assumption|]. exists (S (Nat.max m1 m2)), v.
+           destruct (nbinop_sem o va vb) as [nv|c|] eqn:Enb; [| |contradiction].
+           ++ destruct Hb as [v [Eb Vb]]. split; [assumption|]. split; [eapply bh_sub_trans; eauto|].
+              exists (S (Nat.max m1 m2)), v.
               split; [|assumption]. rewrite force_clos. cbn [eval]. spec_step (Nat.max m1 m2). exact Eb.
-           ++ exists (S (Nat.max m1 m2)). rewrite force_clos. cbn [eval]. spec_step (Nat.max m1 m2). exact Hb.
+           ++ right. split; [rewrite (nbinop_err _ _ _ _ Enb); discriminate|].
+              exists (S (Nat.max m1 m2)). rewrite force_clos. cbn [eval]. spec_step (Nat.max m1 m2). exact Hb.
         -- injection He as <- <-.
-           destruct (IH _ _ _ _ _ _ E2 ltac:(discriminate) Hi H0 Hinv1
-                       (UE_mono _ _ _ _ Hx1 Hr) (hext_trans _ _ _ Hf Hx1)) as [Hx2 [m2 Ev2]].
-           rewrite force_clos in Ev2. split; [eapply hext_trans; eauto|].
+           eapply res_ok_hext; [exact Hx1|exact Hb1|].
+           eapply res_err_shift; [exact DB| |exact (IH _ _ _ _ _ _ P E2 ltac:(discriminate) H0 Hinv1
+                       (UE_mono _ _ _ _ Hx1 Hr) (hext_trans _ _ _ Hf Hx1) (BH_sub _ _ _ Hbh Hx1 Hb1)
+                       (fun p Hp => Dem_trans fl _ _ _ (Hdem p Hp) DB))].
+           intros m2 Ev2. rewrite force_clos in Ev2.
            exists (S (Nat.max m1 m2)). rewrite force_clos. cbn [eval]. spec_step (Nat.max m1 m2). reflexivity.
         -- injection He as <- <-. congruence.
       * injection He as <- <-.
-        destruct (IH _ _ _ _ _ _ E1 ltac:(discriminate) Hi H Hinv Hr Hf) as [Hx1 [m1 Ev1]].
-        split; [assumption|]. exists (S m1). rewrite force_clos in *. cbn [eval]. now rewrite Ev1.
+        eapply res_err_shift; [apply D_bin1| |exact (IH _ _ _ _ _ _ P E1 ltac:(discriminate) H Hinv Hr Hf Hbh
+                    (fun p Hp => Dem_trans fl _ _ _ (Hdem p Hp) (D_bin1 fl rho o t1 t2)))].
+        intros m1 Ev1. err_step m1 Ev1.
       * injection He as <- <-. congruence.
     + (* If *)
       destruct (evalN fl Good k h nrho t1) as [[vc|e|] h1] eqn:E1.
-      * destruct (IH _ _ _ _ _ _ E1 ltac:(discriminate) ltac:(discriminate) H Hinv Hr Hf)
-          as [Hx1 [Hinv1 [m1 [v1 [Ev1 Vv1]]]]]. rewrite force_clos in Ev1.
+      * destruct (IH _ _ _ _ _ _ P E1 ltac:(discriminate) H Hinv Hr Hf Hbh
+                    (fun p Hp => Dem_trans fl _ _ _ (Hdem p Hp) (D_if1 fl rho t1 t2 t3)))
+          as [Hx1 [Hinv1 [Hb1 [m1 [v1 [Ev1 Vv1]]]]]]. rewrite force_clos in Ev1.
         destruct Vv1 as [z|s|b0|x b0 nrho' rho' Hab Hr'|ls bs Hl|fs bs Hl];
-          try (injection He as <- <-; split; [assumption|]; exists (S m1); rewrite force_clos;
-               cbn [eval]; rewrite Ev1; reflexivity).
+          try (injection He as <- <-; split; [assumption|]; right; split; [discriminate|];
+               exists (S m1); rewrite force_clos; cbn [eval]; rewrite Ev1; reflexivity).
+        pose proof (D_if2 fl rho t1 t2 t3 m1 b0 Ev1) as DI.
         destruct b0.
-        -- pose proof (IH _ _ _ _ _ _ He Ho Hi H1 Hinv1 (UE_mono _ _ _ _ Hx1 Hr) (hext_trans _ _ _ Hf Hx1)) as R.
-           eapply res_ok_hext; [exact Hx1|]. eapply res_ok_shift; [|exact R].
+        -- pose proof (IH _ _ _ _ _ _ P He Ho H1 Hinv1 (UE_mono _ _ _ _ Hx1 Hr) (hext_trans _ _ _ Hf Hx1)
+                         (BH_sub _ _ _ Hbh Hx1 Hb1) (fun p Hp => Dem_trans fl _ _ _ (Hdem p Hp) DI)) as R.
+           eapply res_ok_hext; [exact Hx1|exact Hb1|]. eapply res_ok_shift; [|exact DI|exact R].
            intros m o Hm Hne. rewrite force_clos in Hm. exists (S (Nat.max m1 m)). rewrite force_clos.
            cbn [eval]. spec_step (Nat.max m1 m). eapply eval_mono; eauto. lia.
-        -- pose proof (IH _ _ _ _ _ _ He Ho Hi H0 Hinv1 (UE_mono _ _ _ _ Hx1 Hr) (hext_trans _ _ _ Hf Hx1)) as R.
-           eapply res_ok_hext; [exact Hx1|]. eapply res_ok_shift; [|exact R].
+        -- pose proof (IH _ _ _ _ _ _ P He Ho H0 Hinv1 (UE_mono _ _ _ _ Hx1 Hr) (hext_trans _ _ _ Hf Hx1)
+                         (BH_sub _ _ _ Hbh Hx1 Hb1) (fun p Hp => Dem_trans fl _ _ _ (Hdem p Hp) DI)) as R.
+           eapply res_ok_hext; [exact Hx1|exact Hb1|]. eapply res_ok_shift; [|exact DI|exact R].
            intros m o Hm Hne. rewrite force_clos in Hm. exists (S (Nat.max m1 m)). rewrite force_clos.
            cbn [eval]. spec_step (Nat.max m1 m). eapply eval_mono; eauto. lia.
       * injection He as <- <-.
-        destruct (IH _ _ _ _ _ _ E1 ltac:(discriminate) Hi H Hinv Hr Hf) as [Hx1 [m1 Ev1]].
-        split; [assumption|]. exists (S m1). rewrite force_clos in *. cbn [eval]. now rewrite Ev1.
+        eapply res_err_shift; [apply D_if1| |exact (IH _ _ _ _ _ _ P E1 ltac:(discriminate) H Hinv Hr Hf Hbh
+                    (fun p Hp => Dem_trans fl _ _ _ (Hdem p Hp) (D_if1 fl rho t1 t2 t3)))].
+        intros m1 Ev1. err_step m1 Ev1.
       * injection He as <- <-. congruence.
     + (* Arr *)
       destruct (alloc_list h nrho es) as [h1 ls] eqn:E. injection He as <- <-.
-      destruct (alloc_list_ref _ _ _ rho _ _ E Hinv Hac Hr) as [Hx1 [Hinv1 Hl]].
-      split; [assumption|]. split; [assumption|].
+      destruct (alloc_list_ref _ _ _ rho _ _ E Hinv Hac Hr) as [Hx1 [Hinv1 [Hb1 Hl]]].
+      split; [assumption|]. split; [assumption|]. split; [assumption|].
       exists 1, (VArr (map (fun e => BClos e rho) es)). split; [reflexivity|]. now constructor.
     + (* At *)
       destruct (evalN fl Good k h nrho t1) as [[vi|e|] h1] eqn:E1.
-      * destruct (IH _ _ _ _ _ _ E1 ltac:(discriminate) ltac:(discriminate) H Hinv Hr Hf)
-          as [Hx1 [Hinv1 [m1 [v1 [Ev1 Vv1]]]]]. rewrite force_clos in Ev1.
+      * destruct (IH _ _ _ _ _ _ P E1 ltac:(discriminate) H Hinv Hr Hf Hbh
+                    (fun p Hp => Dem_trans fl _ _ _ (Hdem p Hp) (D_at1 fl rho t1 t2)))
+          as [Hx1 [Hinv1 [Hb1 [m1 [v1 [Ev1 Vv1]]]]]]. rewrite force_clos in Ev1.
+        pose proof (D_at2 fl rho t1 t2 m1 v1 Ev1) as DA2.
         destruct (evalN fl Good k h1 nrho t2) as [[va|e|] h2] eqn:E2.
-        -- destruct (IH _ _ _ _ _ _ E2 ltac:(discriminate) ltac:(discriminate) H0 Hinv1
-                       (UE_mono _ _ _ _ Hx1 Hr) (hext_trans _ _ _ Hf Hx1))
-             as [Hx2 [Hinv2 [m2 [v2 [Ev2 Vv2]]]]]. rewrite force_clos in Ev2.
+        -- destruct (IH _ _ _ _ _ _ P E2 ltac:(discriminate) H0 Hinv1
+                       (UE_mono _ _ _ _ Hx1 Hr) (hext_trans _ _ _ Hf Hx1) (BH_sub _ _ _ Hbh Hx1 Hb1)
+                       (fun p Hp => Dem_trans fl _ _ _ (Hdem p Hp) DA2))
+             as [Hx2 [Hinv2 [Hb2 [m2 [v2 [Ev2 Vv2]]]]]]. rewrite force_clos in Ev2.
            pose proof (VU_at h2 vi va v1 v2 (VU_mono _ _ _ _ Hx2 Vv1) Vv2) as Hb.
-           destruct (nat_sem vi va) as [l|c|]; [| |contradiction].
+           destruct (nat_sem vi va) as [l|c|] eqn:Ens; [| |contradiction].
            ++ destruct Hb as [b [Eb Ub]].
-              pose proof (ENT _ _ _ _ _ He Ho Hi Hinv2 Ub
-                            (hext_trans _ _ _ Hf (hext_trans _ _ _ Hx1 Hx2))) as R.
-              eapply res_ok_hext; [eapply hext_trans; [exact Hx1|exact Hx2]|].
-              eapply res_ok_shift; [|exact R].
+              pose proof (D_at3 fl rho t1 t2 m1 v1 m2 v2 b Ev1 Ev2 Eb) as DA3.
+              pose proof (ENT _ _ _ _ _ P He Ho Hinv2 Ub
+                            (hext_trans _ _ _ Hf (hext_trans _ _ _ Hx1 Hx2))
+                            (BH_sub _ _ _ (BH_sub _ _ _ Hbh Hx1 Hb1) Hx2 Hb2)
+                            (fun p Hp => Dem_SDem fl _ _ _ (Hdem p Hp) DA3)) as R.
+              eapply res_ok_hext; [eapply hext_trans; [exact Hx1|exact Hx2]|eapply bh_sub_trans; eauto|].
+              eapply res_ok_shift; [|apply SDem_Dem; exact DA3|exact R].
               intros m o Hm Hne. exists (S (Nat.max (Nat.max m1 m2) m)). rewrite force_clos.
               cbn [eval]. spec_step (Nat.max (Nat.max m1 m2) m). rewrite Eb. cbn [bind].
               change (force fl (Nat.max (Nat.max m1 m2) m) b = o). eapply force_mono; eauto. lia.
            ++ injection He as <- <-. split; [eapply hext_trans; eauto|].
+              right. split; [rewrite (nat_sem_err _ _ _ Ens); discriminate|].
               exists (S (Nat.max m1 m2)). rewrite force_clos. cbn [eval]. spec_step (Nat.max m1 m2).
               rewrite Hb. reflexivity.
         -- injection He as <- <-.
-           destruct (IH _ _ _ _ _ _ E2 ltac:(discriminate) Hi H0 Hinv1
-                       (UE_mono _ _ _ _ Hx1 Hr) (hext_trans _ _ _ Hf Hx1)) as [Hx2 [m2 Ev2]].
-           rewrite force_clos in Ev2. split; [eapply hext_trans; eauto|].
+           eapply res_ok_hext; [exact Hx1|exact Hb1|].
+           eapply res_err_shift; [exact DA2| |exact (IH _ _ _ _ _ _ P E2 ltac:(discriminate) H0 Hinv1
+                       (UE_mono _ _ _ _ Hx1 Hr) (hext_trans _ _ _ Hf Hx1) (BH_sub _ _ _ Hbh Hx1 Hb1)
+                       (fun p Hp => Dem_trans fl _ _ _ (Hdem p Hp) DA2))].
+           intros m2 Ev2. rewrite force_clos in Ev2.
            exists (S (Nat.max m1 m2)). rewrite force_clos. cbn [eval]. spec_step (Nat.max m1 m2). reflexivity.
         -- injection He as <- <-. congruence.
       * injection He as <- <-.
-        destruct (IH _ _ _ _ _ _ E1 ltac:(discriminate) Hi H Hinv Hr Hf) as [Hx1 [m1 Ev1]].
-        split; [assumption|]. exists (S m1). rewrite force_clos in *. cbn [eval]. now rewrite Ev1.
+        eapply res_err_shift; [apply D_at1| |exact (IH _ _ _ _ _ _ P E1 ltac:(discriminate) H Hinv Hr Hf Hbh
+                    (fun p Hp => Dem_trans fl _ _ _ (Hdem p Hp) (D_at1 fl rho t1 t2)))].
+        intros m1 Ev1. err_step m1 Ev1.
       * injection He as <- <-. congruence.
     + (* Rec *)
       destruct (alloc_fields h nrho fs) as [h1 ls] eqn:E. injection He as <- <-.
-      destruct (alloc_fields_ref _ _ _ rho _ _ E Hinv H H0 Hr) as [Hx1 [Hinv1 Hl]].
-      split; [assumption|]. split; [assumption|].
+      destruct (alloc_fields_ref _ _ _ rho _ _ E Hinv H H0 Hr) as [Hx1 [Hinv1 [Hb1 Hl]]].
+      split; [assumption|]. split; [assumption|]. split; [assumption|].
       exists 1, (VRec (map (field_binding fs rho) fs)). split; [reflexivity|]. now constructor.
     + (* Get *)
       destruct (evalN fl Good k h nrho t) as [[ve|e|] h1] eqn:E1.
-      * destruct (IH _ _ _ _ _ _ E1 ltac:(discriminate) ltac:(discriminate) Hac Hinv Hr Hf)
-          as [Hx1 [Hinv1 [m1 [v1 [Ev1 Vv1]]]]]. rewrite force_clos in Ev1.
+      * destruct (IH _ _ _ _ _ _ P E1 ltac:(discriminate) Hac Hinv Hr Hf Hbh
+                    (fun p Hp => Dem_trans fl _ _ _ (Hdem p Hp) (D_get1 fl rho t f)))
+          as [Hx1 [Hinv1 [Hb1 [m1 [v1 [Ev1 Vv1]]]]]]. rewrite force_clos in Ev1.
         destruct Vv1 as [z|s|b0|x b0 nrho' rho' Hab Hr'|ls bs Hl|fs bs Hl];
-          try (injection He as <- <-; split; [assumption|]; exists (S m1); rewrite force_clos;
-               cbn [eval]; rewrite Ev1; reflexivity).
+          try (injection He as <- <-; split; [assumption|]; right; split; [discriminate|];
+               exists (S m1); rewrite force_clos; cbn [eval]; rewrite Ev1; reflexivity).
         pose proof (VU_rec_lookup h1 fs bs f Hl) as Hlk.
         destruct (lookup f fs) as [l|] eqn:L.
         -- destruct Hlk as [b [Lb Ub]].
-           pose proof (ENT _ _ _ _ _ He Ho Hi Hinv1 Ub (hext_trans _ _ _ Hf Hx1)) as R.
-           eapply res_ok_hext; [exact Hx1|]. eapply res_ok_shift; [|exact R].
+           pose proof (D_get2 fl rho t f m1 bs b Ev1 Lb) as DG.
+           pose proof (ENT _ _ _ _ _ P He Ho Hinv1 Ub (hext_trans _ _ _ Hf Hx1) (BH_sub _ _ _ Hbh Hx1 Hb1)
+                         (fun p Hp => Dem_SDem fl _ _ _ (Hdem p Hp) DG)) as R.
+           eapply res_ok_hext; [exact Hx1|exact Hb1|]. eapply res_ok_shift; [|apply SDem_Dem; exact DG|exact R].
            intros m o Hm Hne. exists (S (Nat.max m1 m)). rewrite force_clos.
            cbn [eval]. spec_step (Nat.max m1 m). rewrite Lb.
            change (force fl (Nat.max m1 m) b = o). eapply force_mono; eauto. lia.
-        -- injection He as <- <-. split; [assumption|]. exists (S m1). rewrite force_clos.
+        -- injection He as <- <-. split; [assumption|]. right. split; [discriminate|].
+           exists (S m1). rewrite force_clos.
            cbn [eval]. rewrite Ev1. cbn [bind]. now rewrite Hlk.
       * injection He as <- <-.
-        destruct (IH _ _ _ _ _ _ E1 ltac:(discriminate) Hi Hac Hinv Hr Hf) as [Hx1 [m1 Ev1]].
-        split; [assumption|]. exists (S m1). rewrite force_clos in *. cbn [eval]. now rewrite Ev1.
+        eapply res_err_shift; [apply D_get1| |exact (IH _ _ _ _ _ _ P E1 ltac:(discriminate) Hac Hinv Hr Hf Hbh
+                    (fun p Hp => Dem_trans fl _ _ _ (Hdem p Hp) (D_get1 fl rho t f)))].
+        intros m1 Ev1. err_step m1 Ev1.
       * injection He as <- <-. congruence.
     + (* Seq *)
       destruct (evalN fl Good k h nrho t1) as [[va|e|] h1] eqn:E1.
-      * destruct (IH _ _ _ _ _ _ E1 ltac:(discriminate) ltac:(discriminate) H Hinv Hr Hf)
-          as [Hx1 [Hinv1 [m1 [v1 [Ev1 Vv1]]]]]. rewrite force_clos in Ev1.
-        pose proof (IH _ _ _ _ _ _ He Ho Hi H0 Hinv1 (UE_mono _ _ _ _ Hx1 Hr) (hext_trans _ _ _ Hf Hx1)) as R.
-        eapply res_ok_hext; [exact Hx1|]. eapply res_ok_shift; [|exact R].
+      * destruct (IH _ _ _ _ _ _ P E1 ltac:(discriminate) H Hinv Hr Hf Hbh
+                    (fun p Hp => Dem_trans fl _ _ _ (Hdem p Hp) (D_seq1 fl rho t1 t2)))
+          as [Hx1 [Hinv1 [Hb1 [m1 [v1 [Ev1 Vv1]]]]]]. rewrite force_clos in Ev1.
+        pose proof (D_seq2 fl rho t1 t2 m1 v1 Ev1) as DS.
+        pose proof (IH _ _ _ _ _ _ P He Ho H0 Hinv1 (UE_mono _ _ _ _ Hx1 Hr) (hext_trans _ _ _ Hf Hx1)
+                      (BH_sub _ _ _ Hbh Hx1 Hb1) (fun p Hp => Dem_trans fl _ _ _ (Hdem p Hp) DS)) as R.
+        eapply res_ok_hext; [exact Hx1|exact Hb1|]. eapply res_ok_shift; [|exact DS|exact R].
         intros m o Hm Hne. rewrite force_clos in Hm. exists (S (Nat.max m1 m)). rewrite force_clos.
         cbn [eval]. spec_step (Nat.max m1 m). eapply eval_mono; eauto. lia.
       * injection He as <- <-.
-        destruct (IH _ _ _ _ _ _ E1 ltac:(discriminate) Hi H Hinv Hr Hf) as [Hx1 [m1 Ev1]].
-        split; [assumption|]. exists (S m1). rewrite force_clos in *. cbn [eval]. now rewrite Ev1.
+        eapply res_err_shift; [apply D_seq1| |exact (IH _ _ _ _ _ _ P E1 ltac:(discriminate) H Hinv Hr Hf Hbh
+                    (fun p Hp => Dem_trans fl _ _ _ (Hdem p Hp) (D_seq1 fl rho t1 t2)))].
+        intros m1 Ev1. err_step m1 Ev1.
       * injection He as <- <-. congruence.
-    + (* Fail *) injection He as <- <-. split; [apply hext_refl|]. exists 1. reflexivity.
+    + (* Fail *) injection He as <- <-. split; [apply hext_refl|]. right. split; [discriminate|]. exists 1. reflexivity.
     + (* Import *)
       destruct (index_of f fl) as [i|] eqn:E.
       * destruct (index_of_spec _ _ _ E) as [e [L N]].
         destruct (Hf _ _ N) as [c [Hc [E1 E2]]]. cbn in E1, E2.
         assert (Ub : U h i (BClos e [])).
         { destruct E2 as [E2 E3]. rewrite <- E1. apply U_cell; [assumption|exact E3|rewrite E2; constructor|rewrite E2; constructor]. }
-        eapply res_ok_shift; [|exact (ENT _ _ _ _ _ He Ho Hi Hinv Ub Hf)].
+        pose proof (D_import fl rho f e L) as DI.
+        eapply res_ok_shift; [|apply SDem_Dem; exact DI|exact (ENT _ _ _ _ _ P He Ho Hinv Ub Hf Hbh
+                                          (fun p Hp => Dem_SDem fl _ _ _ (Hdem p Hp) DI))].
         intros m o Hm _. exists (S m). rewrite force_clos. cbn [eval]. rewrite L. exact Hm.
-      * injection He as <- <-. split; [apply hext_refl|]. exists 1. rewrite force_clos. cbn.
+      * injection He as <- <-. split; [apply hext_refl|]. right. split; [discriminate|].
+        exists 1. rewrite force_clos. cbn.
         now rewrite (index_of_none _ _ E).
 Qed.
 
@@ -885,62 +1037,90 @@ Proof. intros A B e c H X. apply H. injection X as ->. reflexivity. Qed.
 Definition dres_ok {C} (h h' : heap) (g : nat -> outcome C) (r : outcome C) : Prop :=
   hext h h' /\
   match r with
-  | Ok c => Inv h' /\ exists m, g m = Ok c
-  | Err e => exists m, g m = Err e
+  | Ok c => Inv h' /\ bh_sub h h' /\ exists m, g m = Ok c
+  | Err e => (e = InfiniteRec /\ forall m, g m = OutOfFuel) \/ (e <> InfiniteRec /\ exists m, g m = Err e)
   | OutOfFuel => False
   end.
+
+Lemma agree_of_mono : forall C (g : nat -> outcome C),
+  (forall m m' o, g m = o -> o <> OutOfFuel -> m <= m' -> g m' = o) ->
+  forall m1 m c, g m1 = Ok c -> g m <> OutOfFuel -> g m = Ok c.
+Proof.
+  intros C g Hg m1 m c H1 H.
+  assert (A : g (Nat.max m1 m) = Ok c) by (eapply Hg; eauto; [discriminate|lia]).
+  assert (B : g (Nat.max m1 m) = g m) by (eapply Hg; eauto; lia).
+  congruence.
+Qed.
 
 Lemma seqN_ref : forall A B C (R : heap -> A -> B -> Prop)
     (f : heap -> A -> outcome C * heap) (g : nat -> B -> outcome C),
   (forall h h' a b, hext h h' -> R h a b -> R h' a b) ->
   (forall b m m' o, g m b = o -> o <> OutOfFuel -> m <= m' -> g m' b = o) ->
-  (forall a b h r h', f h a = (r, h') -> r <> OutOfFuel -> r <> Err InfiniteRec ->
-      Inv h -> R h a b -> hext (init_heap fl) h -> dres_ok h h' (fun m => g m b) r) ->
+  (forall a b h r h', f h a = (r, h') -> r <> OutOfFuel ->
+      Inv h -> R h a b -> hext (init_heap fl) h -> BH h [] -> dres_ok h h' (fun m => g m b) r) ->
   forall l bs h r h',
     Forall2 (R h) l bs ->
-    seqN f h l = (r, h') -> r <> OutOfFuel -> r <> Err InfiniteRec -> Inv h ->
-    hext (init_heap fl) h ->
+    seqN f h l = (r, h') -> r <> OutOfFuel -> Inv h ->
+    hext (init_heap fl) h -> BH h [] ->
     dres_ok h h' (fun m => seq_list (g m) bs) r.
 Proof.
-  intros A B C R f g HR Hg Hf l. induction l as [|a l IH]; intros bs h r h' Hl Hs Ho Hi Hinv Hfl.
+  intros A B C R f g HR Hg Hf l. induction l as [|a l IH]; intros bs h r h' Hl Hs Ho Hinv Hfl Hbh.
   - inversion Hl; subst. cbn in Hs. injection Hs as <- <-. split; [apply hext_refl|].
-    split; [assumption|]. exists 0. reflexivity.
+    split; [assumption|]. split; [apply bh_sub_refl|]. exists 0. reflexivity.
   - inversion Hl as [|a0 b l0 bs' Hab Hl']; subst. cbn [seqN] in Hs.
     destruct (f h a) as [[c|e|] h1] eqn:E1.
-    + destruct (Hf _ _ _ _ _ E1 ltac:(discriminate) ltac:(discriminate) Hinv Hab Hfl)
-        as [Hx1 [Hinv1 [m1 G1]]].
+    + destruct (Hf _ _ _ _ _ E1 ltac:(discriminate) Hinv Hab Hfl Hbh)
+        as [Hx1 [Hinv1 [Hb1 [m1 G1]]]].
+      assert (Hl1 : Forall2 (R h1) l bs').
+      { clear - Hl' HR Hx1. induction Hl'; constructor; eauto. }
+      pose proof (BH_sub _ _ _ Hbh Hx1 Hb1) as Hbh1.
       destruct (seqN f h1 l) as [[cs|e|] h2] eqn:E2.
-      * assert (Hl1 : Forall2 (R h1) l bs').
-        { clear - Hl' HR Hx1. induction Hl'; constructor; eauto. }
-        destruct (IH _ _ _ _ Hl1 E2 ltac:(discriminate) ltac:(discriminate) Hinv1 (hext_trans _ _ _ Hfl Hx1))
-          as [Hx2 [Hinv2 [m2 G2]]].
+      * destruct (IH _ _ _ _ Hl1 E2 ltac:(discriminate) Hinv1 (hext_trans _ _ _ Hfl Hx1) Hbh1)
+          as [Hx2 [Hinv2 [Hb2 [m2 G2]]]].
         injection Hs as <- <-. split; [eapply hext_trans; eauto|]. split; [assumption|].
+        split; [eapply bh_sub_trans; eauto|].
         exists (Nat.max m1 m2). cbn [seq_list].
         rewrite (Hg b m1 (Nat.max m1 m2) _ G1) by (try discriminate; lia). cbn [bind].
         rewrite (seq_list_mono _ _ (g m2) (g (Nat.max m1 m2)) bs' (Ok cs)); [reflexivity| |exact G2|discriminate].
         intros b0 r0 _ Hb Hr0. eapply Hg; eauto. lia.
-      * assert (Hl1 : Forall2 (R h1) l bs').
-        { clear - Hl' HR Hx1. induction Hl'; constructor; eauto. }
-        injection Hs as <- <-.
-        destruct (IH _ _ _ _ Hl1 E2 ltac:(discriminate) Hi Hinv1 (hext_trans _ _ _ Hfl Hx1))
-          as [Hx2 [m2 G2]].
+      * injection Hs as <- <-.
+        destruct (IH _ _ _ _ Hl1 E2 ltac:(discriminate) Hinv1 (hext_trans _ _ _ Hfl Hx1) Hbh1)
+          as [Hx2 R2].
         split; [eapply hext_trans; eauto|].
-        exists (Nat.max m1 m2). cbn [seq_list].
-        rewrite (Hg b m1 (Nat.max m1 m2) _ G1) by (try discriminate; lia). cbn [bind].
-        rewrite (seq_list_mono _ _ (g m2) (g (Nat.max m1 m2)) bs' (Err e)); [reflexivity| |exact G2|discriminate].
-        intros b0 r0 _ Hb Hr0. eapply Hg; eauto. lia.
+        destruct R2 as [[-> Hdiv]|[Hne [m2 G2]]].
+        -- left. split; [reflexivity|]. intros m. cbn [seq_list].
+           destruct (g m b) as [c'|e'|] eqn:Gm; [| |reflexivity].
+           ++ cbn [bind]. rewrite Hdiv. reflexivity.
+           ++ exfalso. pose proof (agree_of_mono _ (fun m => g m b) (Hg b) m1 m c G1) as X.
+              cbn beta in X. rewrite Gm in X. specialize (X ltac:(discriminate)). discriminate.
+        -- right. split; [assumption|].
+           exists (Nat.max m1 m2). cbn [seq_list].
+           rewrite (Hg b m1 (Nat.max m1 m2) _ G1) by (try discriminate; lia). cbn [bind].
+           rewrite (seq_list_mono _ _ (g m2) (g (Nat.max m1 m2)) bs' (Err e)); [reflexivity| |exact G2|discriminate].
+           intros b0 r0 _ Hb Hr0. eapply Hg; eauto. lia.
       * injection Hs as <- <-. congruence.
     + injection Hs as <- <-.
-      destruct (Hf _ _ _ _ _ E1 ltac:(discriminate) (err_ne_cast _ _ _ _ Hi) Hinv Hab Hfl) as [Hx1 [m1 G1]].
-      split; [assumption|]. exists m1. cbn [seq_list]. now rewrite G1.
+      destruct (Hf _ _ _ _ _ E1 ltac:(discriminate) Hinv Hab Hfl Hbh) as [Hx1 R1].
+      split; [assumption|]. destruct R1 as [[-> Hdiv]|[Hne [m1 G1]]].
+      * left. split; [reflexivity|]. intros m. cbn [seq_list]. now rewrite Hdiv.
+      * right. split; [assumption|]. exists m1. cbn [seq_list]. now rewrite G1.
     + injection Hs as <- <-. congruence.
 Qed.
 
 Definition exports_at (n : nat) : Prop :=
   forall h nv v r h',
-    exportN fl Good n h nv = (r, h') -> r <> OutOfFuel -> r <> Err InfiniteRec ->
-    Inv h -> VU h nv v -> hext (init_heap fl) h ->
+    exportN fl Good n h nv = (r, h') -> r <> OutOfFuel ->
+    Inv h -> VU h nv v -> hext (init_heap fl) h -> BH h [] ->
     dres_ok h h' (fun m => export fl m v) r.
+
+Lemma force_agree : forall m1 m b v,
+  force fl m1 b = Ok v -> force fl m b <> OutOfFuel -> force fl m b = Ok v.
+Proof.
+  intros m1 m b v H1 H.
+  assert (A : force fl (Nat.max m1 m) b = Ok v) by (eapply force_mono; eauto; [discriminate|lia]).
+  assert (B : force fl (Nat.max m1 m) b = force fl m b) by (eapply force_mono; eauto; lia).
+  congruence.
+Qed.
 
 Lemma elem_ref : forall k, exports_at k ->
   forall l b h r h',
@@ -949,54 +1129,68 @@ Lemma elem_ref : forall k, exports_at k ->
     | (Err e, h1) => (Err e, h1)
     | (OutOfFuel, h1) => (OutOfFuel, h1)
     end = (r, h') ->
-    r <> OutOfFuel -> r <> Err InfiniteRec -> Inv h -> U h l b -> hext (init_heap fl) h ->
+    r <> OutOfFuel -> Inv h -> U h l b -> hext (init_heap fl) h -> BH h [] ->
     dres_ok h h' (fun m => export_b fl m b) r.
 Proof.
-  intros k IH l b h r h' He Ho Hi Hinv Hu Hfl. unfold enter in He.
+  intros k IH l b h r h' He Ho Hinv Hu Hfl Hbh. unfold enter in He.
   destruct (enter_with Good (evalN fl Good k) h l) as [[nv|e|] h1] eqn:E1.
-  - destruct (enter_ref k (evalN_refines k) _ _ _ _ _ E1 ltac:(discriminate) ltac:(discriminate) Hinv Hu Hfl)
-      as [Hx1 [Hinv1 [m1 [v [F1 V1]]]]].
-    destruct (IH _ _ _ _ _ He Ho Hi Hinv1 V1 (hext_trans _ _ _ Hfl Hx1)) as [Hx2 R2].
+  - destruct (enter_ref k (evalN_refines k) _ _ _ _ _ [] E1 ltac:(discriminate) Hinv Hu Hfl Hbh
+                (fun p (Hp : In p []) => match Hp with end))
+      as [Hx1 [Hinv1 [Hb1 [m1 [v [F1 V1]]]]]].
+    destruct (IH _ _ _ _ _ He Ho Hinv1 V1 (hext_trans _ _ _ Hfl Hx1) (BH_sub _ _ _ Hbh Hx1 Hb1)) as [Hx2 R2].
     split; [eapply hext_trans; eauto|]. destruct r as [d|e|]; [| |assumption].
-    + destruct R2 as [Hinv2 [m2 X2]]. split; [assumption|]. exists (Nat.max m1 m2). unfold export_b.
+    + destruct R2 as [Hinv2 [Hb2 [m2 X2]]]. split; [assumption|]. split; [eapply bh_sub_trans; eauto|].
+      exists (Nat.max m1 m2). unfold export_b.
       rewrite (force_mono fl m1 (Nat.max m1 m2) b _ F1) by (try discriminate; lia). cbn [bind].
       apply (export_mono fl m2 (Nat.max m1 m2) v _ X2); [discriminate|lia].
-    + destruct R2 as [m2 X2]. exists (Nat.max m1 m2). unfold export_b.
-      rewrite (force_mono fl m1 (Nat.max m1 m2) b _ F1) by (try discriminate; lia). cbn [bind].
-      apply (export_mono fl m2 (Nat.max m1 m2) v _ X2); [discriminate|lia].
+    + destruct R2 as [[-> Hdiv]|[Hne [m2 X2]]].
+      * left. split; [reflexivity|]. intros m. unfold export_b.
+        destruct (force fl m b) as [v'|e'|] eqn:Fm; [| |reflexivity].
+        -- rewrite (force_agree m1 m b v F1) in Fm by congruence. injection Fm as <-. cbn [bind]. apply Hdiv.
+        -- rewrite (force_agree m1 m b v F1) in Fm by congruence. discriminate.
+      * right. split; [assumption|]. exists (Nat.max m1 m2). unfold export_b.
+        rewrite (force_mono fl m1 (Nat.max m1 m2) b _ F1) by (try discriminate; lia). cbn [bind].
+        apply (export_mono fl m2 (Nat.max m1 m2) v _ X2); [discriminate|lia].
   - injection He as <- <-.
-    destruct (enter_ref k (evalN_refines k) _ _ _ _ _ E1 ltac:(discriminate) (err_ne_cast _ _ _ _ Hi) Hinv Hu Hfl) as [Hx1 [m1 F1]].
-    split; [assumption|]. exists m1. unfold export_b. now rewrite F1.
+    destruct (enter_ref k (evalN_refines k) _ _ _ _ _ [] E1 ltac:(discriminate) Hinv Hu Hfl Hbh
+                (fun p (Hp : In p []) => match Hp with end)) as [Hx1 R1].
+    split; [assumption|]. destruct R1 as [[-> Hdiv]|[Hne [m1 F1]]].
+    + left. split; [reflexivity|]. intros m. unfold export_b. now rewrite Hdiv.
+    + right. split; [assumption|]. exists m1. unfold export_b. now rewrite F1.
   - injection He as <- <-. congruence.
 Qed.
 
+Lemma export_div_S : forall v (K : val -> nat -> outcome data),
+  (forall m, K v m = OutOfFuel) -> forall m, match m with O => OutOfFuel | S k => K v k end = @OutOfFuel data.
+Proof. intros v K H [|k]; auto. Qed.
+
 Theorem exportN_refines : forall n, exports_at n.
 Proof.
-  induction n as [|k IH]; intros h nv v r h' He Ho Hi Hinv Hv Hfl.
+  induction n as [|k IH]; intros h nv v r h' He Ho Hinv Hv Hfl Hbh.
   - cbn in He. injection He as <- <-. congruence.
   - destruct Hv as [z|s|b0|x b0 nrho rho Hab Hr|ls bs Hl|fs bs Hl]; cbn [exportN] in He.
-    + injection He as <- <-. split; [apply hext_refl|]. split; [assumption|]. exists 1. reflexivity.
-    + injection He as <- <-. split; [apply hext_refl|]. split; [assumption|]. exists 1. reflexivity.
-    + injection He as <- <-. split; [apply hext_refl|]. split; [assumption|]. exists 1. reflexivity.
-    + injection He as <- <-. split; [apply hext_refl|]. split; [assumption|]. exists 1. reflexivity.
+    + injection He as <- <-. split; [apply hext_refl|]. split; [assumption|]. split; [apply bh_sub_refl|]. exists 1. reflexivity.
+    + injection He as <- <-. split; [apply hext_refl|]. split; [assumption|]. split; [apply bh_sub_refl|]. exists 1. reflexivity.
+    + injection He as <- <-. split; [apply hext_refl|]. split; [assumption|]. split; [apply bh_sub_refl|]. exists 1. reflexivity.
+    + injection He as <- <-. split; [apply hext_refl|]. split; [assumption|]. split; [apply bh_sub_refl|]. exists 1. reflexivity.
     + (* arrays *)
       match type of He with match seqN ?f _ _ with _ => _ end = _ => set (F := f) in * end.
+      assert (X : forall r0 h0, seqN F h (rev ls) = (r0, h0) -> r0 <> OutOfFuel ->
+                    dres_ok h h0 (fun m => seq_list (fun b => export_b fl m b) (rev bs)) r0).
+      { intros r0 h0 E Hne.
+        exact (seqN_ref _ _ _ U F (fun m b => export_b fl m b) (fun h h' a b Hx => U_mono h h' a b Hx)
+                 (fun b m m' o => export_b_mono fl m m' b o)
+                 (fun a b h r h' => elem_ref k IH a b h r h')
+                 _ _ _ _ _ (Forall2_rev' _ _ _ _ _ Hl) E Hne Hinv Hfl Hbh). }
       destruct (seqN F h (rev ls)) as [[ds|e|] h1] eqn:E.
-      * injection He as <- <-.
-        destruct (seqN_ref _ _ _ U F (fun m b => export_b fl m b) (fun h h' a b Hx => U_mono h h' a b Hx)
-                    (fun b m m' o => export_b_mono fl m m' b o)
-                    (fun a b h r h' => elem_ref k IH a b h r h')
-                    _ _ _ _ _ (Forall2_rev' _ _ _ _ _ Hl) E ltac:(discriminate) ltac:(discriminate) Hinv Hfl)
-          as [Hx1 [Hinv1 [m X]]].
-        split; [assumption|]. split; [assumption|]. exists (S m). cbn [export].
-        unfold export_b in X. rewrite X. reflexivity.
-      * injection He as <- <-.
-        destruct (seqN_ref _ _ _ U F (fun m b => export_b fl m b) (fun h h' a b Hx => U_mono h h' a b Hx)
-                    (fun b m m' o => export_b_mono fl m m' b o)
-                    (fun a b h r h' => elem_ref k IH a b h r h')
-                    _ _ _ _ _ (Forall2_rev' _ _ _ _ _ Hl) E ltac:(discriminate) (err_ne_cast _ _ _ _ Hi) Hinv Hfl)
-          as [Hx1 [m X]].
-        split; [assumption|]. exists (S m). cbn [export]. unfold export_b in X. rewrite X. reflexivity.
+      * injection He as <- <-. destruct (X _ _ eq_refl ltac:(discriminate)) as [Hx1 [Hinv1 [Hb1 [m G]]]].
+        split; [assumption|]. split; [assumption|]. split; [assumption|]. exists (S m). cbn [export].
+        unfold export_b in G. rewrite G. reflexivity.
+      * injection He as <- <-. destruct (X _ _ eq_refl ltac:(discriminate)) as [Hx1 R1].
+        split; [assumption|]. destruct R1 as [[-> Hdiv]|[Hne [m G]]].
+        -- left. split; [reflexivity|]. intros [|m]; [reflexivity|]. cbn [export].
+           unfold export_b in Hdiv. now rewrite Hdiv.
+        -- right. split; [assumption|]. exists (S m). cbn [export]. unfold export_b in G. rewrite G. reflexivity.
       * injection He as <- <-. congruence.
     + (* records *)
       match type of He with match seqN ?f _ _ with _ => _ end = _ => set (F := f) in * end.
@@ -1011,30 +1205,34 @@ Proof.
         destruct (export_b fl m (snd b)) as [d|e|] eqn:X; cbn [bind] in Hg; [| |congruence].
         - rewrite (export_b_mono fl m m' _ _ X) by (try discriminate; lia). exact Hg.
         - rewrite (export_b_mono fl m m' _ _ X) by (try discriminate; lia). exact Hg. }
-      assert (HF : forall a b h r h', F h a = (r, h') -> r <> OutOfFuel -> r <> Err InfiniteRec ->
-                     Inv h -> R h a b -> hext (init_heap fl) h -> dres_ok h h' (fun m => G m b) r).
-      { intros [f l] [f' b] h0 r0 h0' HFa Hne Hni Hinv0 [Hn Hu] Hfl0. cbn [fst snd] in *. subst f'.
+      assert (HF : forall a b h r h', F h a = (r, h') -> r <> OutOfFuel ->
+                     Inv h -> R h a b -> hext (init_heap fl) h -> BH h [] -> dres_ok h h' (fun m => G m b) r).
+      { intros [f l] [f' b] h0 r0 h0' HFa Hne Hinv0 [Hn Hu] Hfl0 Hbh0. cbn [fst snd] in *. subst f'.
         unfold F in HFa. cbn [fst snd] in HFa.
         match type of HFa with match ?x with _ => _ end = _ => destruct x as [[d|e|] h1] eqn:E1 end.
         - injection HFa as <- <-.
-          destruct (elem_ref k IH l b h0 _ _ E1 ltac:(discriminate) ltac:(discriminate) Hinv0 Hu Hfl0)
-            as [Hx1 [Hinv1 [m X]]].
-          split; [assumption|]. split; [assumption|]. exists m. unfold G. cbn [fst snd].
+          destruct (elem_ref k IH l b h0 _ _ E1 ltac:(discriminate) Hinv0 Hu Hfl0 Hbh0)
+            as [Hx1 [Hinv1 [Hb1 [m X]]]].
+          split; [assumption|]. split; [assumption|]. split; [assumption|]. exists m. unfold G. cbn [fst snd].
           fold (export_b fl m b). now rewrite X.
         - injection HFa as <- <-.
-          destruct (elem_ref k IH l b h0 _ _ E1 ltac:(discriminate) (err_ne_cast _ _ _ _ Hni) Hinv0 Hu Hfl0) as [Hx1 [m X]].
-          split; [assumption|]. exists m. unfold G. cbn [fst snd]. fold (export_b fl m b). now rewrite X.
+          destruct (elem_ref k IH l b h0 _ _ E1 ltac:(discriminate) Hinv0 Hu Hfl0 Hbh0) as [Hx1 R1].
+          split; [assumption|]. destruct R1 as [[-> Hdiv]|[Hne' [m X]]].
+          + left. split; [reflexivity|]. intros m. unfold G. cbn [fst snd]. fold (export_b fl m b). now rewrite Hdiv.
+          + right. split; [assumption|]. exists m. unfold G. cbn [fst snd]. fold (export_b fl m b). now rewrite X.
         - injection HFa as <- <-. congruence. }
+      assert (X : forall r0 h0, seqN F h (rev fs) = (r0, h0) -> r0 <> OutOfFuel ->
+                    dres_ok h h0 (fun m => seq_list (G m) (rev bs)) r0).
+      { intros r0 h0 E Hne.
+        exact (seqN_ref _ _ _ R F G HR HG HF _ _ _ _ _ (Forall2_rev' _ _ _ _ _ Hl) E Hne Hinv Hfl Hbh). }
       destruct (seqN F h (rev fs)) as [[ds|e|] h1] eqn:E.
-      * injection He as <- <-.
-        destruct (seqN_ref _ _ _ R F G HR HG HF _ _ _ _ _ (Forall2_rev' _ _ _ _ _ Hl) E
-                    ltac:(discriminate) ltac:(discriminate) Hinv Hfl) as [Hx1 [Hinv1 [m X]]].
-        split; [assumption|]. split; [assumption|]. exists (S m). cbn [export]. fold (G m).
-        rewrite X. reflexivity.
-      * injection He as <- <-.
-        destruct (seqN_ref _ _ _ R F G HR HG HF _ _ _ _ _ (Forall2_rev' _ _ _ _ _ Hl) E
-                    ltac:(discriminate) (err_ne_cast _ _ _ _ Hi) Hinv Hfl) as [Hx1 [m X]].
-        split; [assumption|]. exists (S m). cbn [export]. fold (G m). rewrite X. reflexivity.
+      * injection He as <- <-. destruct (X _ _ eq_refl ltac:(discriminate)) as [Hx1 [Hinv1 [Hb1 [m Gm]]]].
+        split; [assumption|]. split; [assumption|]. split; [assumption|]. exists (S m). cbn [export]. fold (G m).
+        rewrite Gm. reflexivity.
+      * injection He as <- <-. destruct (X _ _ eq_refl ltac:(discriminate)) as [Hx1 R1].
+        split; [assumption|]. destruct R1 as [[-> Hdiv]|[Hne [m Gm]]].
+        -- left. split; [reflexivity|]. intros [|m]; [reflexivity|]. cbn [export]. fold (G m). now rewrite Hdiv.
+        -- right. split; [assumption|]. exists (S m). cbn [export]. fold (G m). rewrite Gm. reflexivity.
       * injection He as <- <-. congruence.
 Qed.
 
@@ -1049,66 +1247,120 @@ Proof.
     destruct Hc as [p [<- Hp]]. discriminate.
 Qed.
 
-(* whenever the call-by-need run of a program returns a result (other than running out of fuel
-   or reporting a black hole), the call-by-name semantics returns the same result for some fuel *)
+Lemma BH_init : BH (init_heap fl) [].
+Proof.
+  intros l c Hc Hs. unfold init_heap in Hc. apply nth_error_In in Hc. apply in_map_iff in Hc.
+  destruct Hc as [p [<- Hp]]. discriminate.
+Qed.
+
+(* whenever the call-by-need run of a program returns a result, the call-by-name semantics
+   returns the same result for some fuel -- and when the run reports a black hole
+   (InfiniteRec), the call-by-name semantics diverges *)
+Theorem need_refines_name_full : forall n t r h,
+  wft t = true ->
+  runN fl Good n t = (r, h) -> r <> OutOfFuel ->
+  (r <> Err InfiniteRec -> exists m, run fl m [] t = r) /\
+  (r = Err InfiniteRec -> forall m, run fl m [] t = OutOfFuel).
+Proof.
+  intros n t r h Hac Hr Ho. unfold runN in Hr.
+  destruct (evalN fl Good n (init_heap fl) [] t) as [[nv|e|] h1] eqn:E1.
+  - destruct (evalN_refines n _ _ _ _ _ [] [] E1 ltac:(discriminate) Hac Inv_init
+                (UE_nil _) (hext_refl _) BH_init (fun p (Hp : In p []) => match Hp with end))
+      as [Hx1 [Hinv1 [Hb1 [m1 [v [Ev Vv]]]]]].
+    rewrite force_clos in Ev.
+    destruct (exportN_refines n _ _ _ _ _ Hr Ho Hinv1 Vv Hx1 (BH_sub _ _ _ BH_init Hx1 Hb1)) as [Hx2 R2].
+    destruct r as [d|e|]; [| |contradiction].
+    + split; [|discriminate]. intros _. destruct R2 as [_ [_ [m2 X]]]. exists (Nat.max m1 m2). unfold run.
+      rewrite (eval_mono fl m1 (Nat.max m1 m2) _ _ _ Ev) by (try discriminate; lia). cbn [bind].
+      apply (export_mono fl m2 (Nat.max m1 m2) v _ X); [discriminate|lia].
+    + destruct R2 as [[-> Hdiv]|[Hne [m2 X]]].
+      * split; [congruence|]. intros _ m. unfold run.
+        destruct (eval fl m [] t) as [v'|e'|] eqn:Em; [| |reflexivity].
+        -- rewrite (eval_agree fl m1 m _ _ _ Ev) in Em by congruence. injection Em as <-. cbn [bind]. apply Hdiv.
+        -- rewrite (eval_agree fl m1 m _ _ _ Ev) in Em by congruence. discriminate.
+      * split; [|intros [= ->]; congruence]. intros _. exists (Nat.max m1 m2). unfold run.
+        rewrite (eval_mono fl m1 (Nat.max m1 m2) _ _ _ Ev) by (try discriminate; lia). cbn [bind].
+        apply (export_mono fl m2 (Nat.max m1 m2) v _ X); [discriminate|lia].
+  - injection Hr as <- <-.
+    destruct (evalN_refines n _ _ _ _ _ [] [] E1 ltac:(discriminate) Hac Inv_init
+                (UE_nil _) (hext_refl _) BH_init (fun p (Hp : In p []) => match Hp with end)) as [Hx1 R1].
+    destruct R1 as [[-> Hdiv]|[Hne [m1 Ev]]].
+    + split; [congruence|]. intros _ m. unfold run. specialize (Hdiv m). rewrite force_clos in Hdiv.
+      now rewrite Hdiv.
+    + split; [|intros [= ->]; congruence]. intros _. rewrite force_clos in Ev. exists m1. unfold run. now rewrite Ev.
+  - injection Hr as <- <-. congruence.
+Qed.
+
 Theorem need_refines_name : forall n t r h,
   wft t = true ->
   runN fl Good n t = (r, h) -> r <> OutOfFuel -> r <> Err InfiniteRec ->
   exists m, run fl m [] t = r.
 Proof.
-  intros n t r h Hac Hr Ho Hi. unfold runN in Hr.
-  destruct (evalN fl Good n (init_heap fl) [] t) as [[nv|e|] h1] eqn:E1.
-  - destruct (evalN_refines n _ _ _ _ _ [] E1 ltac:(discriminate) ltac:(discriminate) Hac Inv_init
-                (UE_nil _) (hext_refl _)) as [Hx1 [Hinv1 [m1 [v [Ev Vv]]]]].
-    rewrite force_clos in Ev.
-    destruct (exportN_refines n _ _ _ _ _ Hr Ho Hi Hinv1 Vv Hx1) as [Hx2 R2].
-    destruct r as [d|e|]; [| |contradiction].
-    + destruct R2 as [_ [m2 X]]. exists (Nat.max m1 m2). unfold run.
-      rewrite (eval_mono fl m1 (Nat.max m1 m2) _ _ _ Ev) by (try discriminate; lia). cbn [bind].
-      apply (export_mono fl m2 (Nat.max m1 m2) v _ X); [discriminate|lia].
-    + destruct R2 as [m2 X]. exists (Nat.max m1 m2). unfold run.
-      rewrite (eval_mono fl m1 (Nat.max m1 m2) _ _ _ Ev) by (try discriminate; lia). cbn [bind].
-      apply (export_mono fl m2 (Nat.max m1 m2) v _ X); [discriminate|lia].
-  - injection Hr as <- <-.
-    destruct (evalN_refines n _ _ _ _ _ [] E1 ltac:(discriminate) (err_ne_cast _ _ _ _ Hi) Hac Inv_init
-                (UE_nil _) (hext_refl _)) as [Hx1 [m1 Ev]].
-    rewrite force_clos in Ev. exists m1. unfold run. now rewrite Ev.
-  - injection Hr as <- <-. congruence.
+  intros n t r h Hw Hr Ho Hi. now apply (proj1 (need_refines_name_full n t r h Hw Hr Ho)).
 Qed.
 
 (* ------------------------------------------------------------------ field extraction on the machine *)
 
 Lemma extractN_loc_refines : forall n path h l b r h',
-  extractN_loc fl Good n h l path = (r, h') -> r <> OutOfFuel -> r <> Err InfiniteRec ->
-  Inv h -> U h l b -> hext (init_heap fl) h ->
+  extractN_loc fl Good n h l path = (r, h') -> r <> OutOfFuel ->
+  Inv h -> U h l b -> hext (init_heap fl) h -> BH h [] ->
   dres_ok h h' (fun m => extract_b fl m b path) r.
 Proof.
-  intros n path. induction path as [|f p IH]; intros h l b r h' He Ho Hi Hinv Hu Hfl;
+  intros n path. induction path as [|f p IH]; intros h l b r h' He Ho Hinv Hu Hfl Hbh;
     cbn [extractN_loc] in He.
   - cbn [extract_b]. eapply (elem_ref n (exportN_refines n)); eauto.
   - unfold enter in He.
     destruct (enter_with Good (evalN fl Good n) h l) as [[nv|e|] h1] eqn:E1.
-    + destruct (enter_ref n (evalN_refines n) _ _ _ _ _ E1 ltac:(discriminate) ltac:(discriminate) Hinv Hu Hfl)
-        as [Hx1 [Hinv1 [m1 [v [F1 V1]]]]].
+    + destruct (enter_ref n (evalN_refines n) _ _ _ _ _ [] E1 ltac:(discriminate) Hinv Hu Hfl Hbh
+                  (fun p (Hp : In p []) => match Hp with end))
+        as [Hx1 [Hinv1 [Hb1 [m1 [v [F1 V1]]]]]].
       destruct V1 as [z|s|b0|x b0 nrho rho Hab Hr|ls bs Hl|fs bs Hl];
-        try (injection He as <- <-; split; [assumption|]; exists m1; cbn [extract_b]; rewrite F1; reflexivity).
+        try (injection He as <- <-; split; [assumption|]; right; split; [discriminate|];
+             exists m1; cbn [extract_b]; rewrite F1; reflexivity).
       pose proof (VU_rec_lookup h1 fs bs f Hl) as Hlk.
       destruct (lookup f fs) as [l'|] eqn:L.
       * destruct Hlk as [b' [Lb Ub]].
-        destruct (IH _ _ _ _ _ He Ho Hi Hinv1 Ub (hext_trans _ _ _ Hfl Hx1)) as [Hx2 R2].
+        destruct (IH _ _ _ _ _ He Ho Hinv1 Ub (hext_trans _ _ _ Hfl Hx1) (BH_sub _ _ _ Hbh Hx1 Hb1)) as [Hx2 R2].
         split; [eapply hext_trans; eauto|]. destruct r as [d|e|]; [| |contradiction].
-        -- destruct R2 as [Hinv2 [m2 X]]. split; [assumption|]. exists (Nat.max m1 m2). cbn [extract_b].
+        -- destruct R2 as [Hinv2 [Hb2 [m2 X]]]. split; [assumption|]. split; [eapply bh_sub_trans; eauto|].
+           exists (Nat.max m1 m2). cbn [extract_b].
            rewrite (force_mono fl m1 (Nat.max m1 m2) b _ F1) by (try discriminate; lia). rewrite Lb.
            apply (extract_b_mono fl p m2 (Nat.max m1 m2) b' _ X); [discriminate|lia].
-        -- destruct R2 as [m2 X]. exists (Nat.max m1 m2). cbn [extract_b].
-           rewrite (force_mono fl m1 (Nat.max m1 m2) b _ F1) by (try discriminate; lia). rewrite Lb.
-           apply (extract_b_mono fl p m2 (Nat.max m1 m2) b' _ X); [discriminate|lia].
-      * injection He as <- <-. split; [assumption|]. exists m1. cbn [extract_b]. rewrite F1. now rewrite Hlk.
+        -- destruct R2 as [[-> Hdiv]|[Hne [m2 X]]].
+           ++ left. split; [reflexivity|]. intros m. cbn [extract_b].
+              destruct (force fl m b) as [v'|e'|] eqn:Fm; [| |reflexivity].
+              ** rewrite (force_agree m1 m b _ F1) in Fm by congruence. injection Fm as <-. rewrite Lb. apply Hdiv.
+              ** rewrite (force_agree m1 m b _ F1) in Fm by congruence. discriminate.
+           ++ right. split; [assumption|]. exists (Nat.max m1 m2). cbn [extract_b].
+              rewrite (force_mono fl m1 (Nat.max m1 m2) b _ F1) by (try discriminate; lia). rewrite Lb.
+              apply (extract_b_mono fl p m2 (Nat.max m1 m2) b' _ X); [discriminate|lia].
+      * injection He as <- <-. split; [assumption|]. right. split; [discriminate|].
+        exists m1. cbn [extract_b]. rewrite F1. now rewrite Hlk.
     + injection He as <- <-.
-      destruct (enter_ref n (evalN_refines n) _ _ _ _ _ E1 ltac:(discriminate) (err_ne_cast _ _ _ _ Hi) Hinv Hu Hfl)
-        as [Hx1 [m1 F1]].
-      split; [assumption|]. exists m1. cbn [extract_b]. now rewrite F1.
+      destruct (enter_ref n (evalN_refines n) _ _ _ _ _ [] E1 ltac:(discriminate) Hinv Hu Hfl Hbh
+                  (fun p (Hp : In p []) => match Hp with end)) as [Hx1 R1].
+      split; [assumption|]. destruct R1 as [[-> Hdiv]|[Hne [m1 F1]]].
+      * left. split; [reflexivity|]. intros m. cbn [extract_b]. now rewrite Hdiv.
+      * right. split; [assumption|]. exists m1. cbn [extract_b]. now rewrite F1.
     + injection He as <- <-. congruence.
+Qed.
+
+Theorem need_extract_refines_name_full : forall n t path r h,
+  wft t = true ->
+  extractN fl Good n t path = (r, h) -> r <> OutOfFuel ->
+  (r <> Err InfiniteRec -> exists m, extract fl m [] t path = r) /\
+  (r = Err InfiniteRec -> forall m, extract fl m [] t path = OutOfFuel).
+Proof.
+  intros n t path r h Hac He Ho. unfold extractN, alloc in He.
+  destruct (alloc_ref (init_heap fl) t [] [] Inv_init Hac (UE_nil _)) as [Hx [Hinv Hu]].
+  assert (Hbh : BH (init_heap fl ++ [mkcell t [] Standard Suspended None]) []).
+  { eapply BH_sub; [apply BH_init|exact Hx|]. apply bh_sub_app. intros c [<-|[]]. reflexivity. }
+  destruct (extractN_loc_refines _ _ _ _ _ _ _ He Ho Hinv Hu Hx Hbh) as [_ R].
+  unfold extract. destruct r as [d|e|]; [| |contradiction].
+  - split; [|discriminate]. intros _. destruct R as [_ [_ [m X]]]. eauto.
+  - destruct R as [[-> Hdiv]|[Hne [m X]]].
+    + split; [congruence|]. intros _. exact Hdiv.
+    + split; [|intros [= ->]; congruence]. intros _. eauto.
 Qed.
 
 Theorem need_extract_refines_name : forall n t path r h,
@@ -1116,12 +1368,7 @@ Theorem need_extract_refines_name : forall n t path r h,
   extractN fl Good n t path = (r, h) -> r <> OutOfFuel -> r <> Err InfiniteRec ->
   exists m, extract fl m [] t path = r.
 Proof.
-  intros n t path r h Hac He Ho Hi. unfold extractN, alloc in He.
-  destruct (alloc_ref (init_heap fl) t [] [] Inv_init Hac (UE_nil _)) as [Hx [Hinv Hu]].
-  destruct (extractN_loc_refines _ _ _ _ _ _ _ He Ho Hi Hinv Hu Hx) as [_ R].
-  unfold extract. destruct r as [d|e|]; [| |contradiction].
-  - destruct R as [_ [m X]]. eauto.
-  - destruct R as [m X]. eauto.
+  intros n t path r h Hw He Ho Hi. now apply (proj1 (need_extract_refines_name_full n t path r h Hw He Ho)).
 Qed.
 
 End Ref.
